@@ -367,3 +367,12 @@ def m8_matcher(ctx):
 
 
 RULES.append(('M8', m8_matcher))
+
+
+def m9_stateless(ctx):
+    """M9 literal readers carry no state from one capture of the line to the next (shared rule, scv/common.py)"""
+    from ..common import reader_stateless
+    reader_stateless(ctx, 'M9', ('Money',))
+
+
+RULES.append(('M9', m9_stateless))
